@@ -1,5 +1,6 @@
 import StorageModel.Properties.C07
 import StorageModel.Tx.Events
+import StorageModel.Tx.GroupLemmas
 /-
   C08 — Entity events: exactly once per committed change, none for undone work.
 
@@ -428,6 +429,272 @@ example :
       [] Ctx.empty
       { mode := .raw, reuseCtx := false, body := [.addCommit 4, .addPre 2 true, .op (.create .P "p1" ⟨"n", [], none, [], []⟩ "") .none false] }).fired
       = [.commitActions [4], .listener .P 0 0 false .created (some (.parent "p1" ⟨"n", [], none, [], []⟩)), .txComplete 0] := by
+  decide +kernel
+
+/-! ## batch groups: several Db.Batch calls coalesced by bbolt into one batch (Tx/Group.lean)
+
+  bbolt's DB.Batch queues calls and runs them — in arrival order — inside ONE transaction; when a member's function
+  returns an error the shared transaction is rolled back, that member is taken out (the last call moves into its
+  place) and re-run alone, the others are re-run together from scratch.  The schedule (when the solo re-runs happen
+  relative to the rounds of the batch) is a scheduling fact: the theorems hold for EVERY schedule, any number of
+  members, any bodies (handing operation errors on), any fault positions, any database, any contexts.
+
+  What the code does / what the property demands.  The closure of DbImpl.Batch registers, per invocation, on the bbolt
+  transaction it is invoked in: the member's handleCommit (setTx), the post-commit work of the member's changes
+  (fireEvents), the tx-complete listeners (called with the member's MutateContext).  A shared transaction that commits
+  with m members therefore runs every tx-complete listener m times, once per member context, and m commit-action
+  goroutines, one per member context.  The property's "once per committed transaction" is read per committed Db.Batch
+  CALL (the caller's transaction; the listener is handed that call's context): `batch_group_committed_once` shows that a
+  call returns nil iff exactly one committed bbolt transaction invoked its function, `batch_group_tx_complete_once`
+  that this transaction runs the call's commit actions and the tx-complete listeners exactly once for it, and
+  `batch_group_rolled_back_no_events` that nothing else does. -/
+
+/-- the group after a schedule, under the code's runner -/
+abbrev groupRun (env : Env) (specs : Nat → Member) (db : Db) (ctxs : Nat → Ctx) (arrival : List Nat) (sched : List Sched) :=
+  runGroup (modelRunner env) specs db ctxs arrival sched
+
+/-- **every member whose call returns nil was committed in exactly one transaction** — and a call that returned an
+    error, or has not returned, is part of no committed transaction (any runner, any schedule). -/
+theorem batch_group_committed_once (env : Env) (specs : Nat → Member) (db : Db) (ctxs : Nat → Ctx)
+    (arrival : List Nat) (hn : arrival.Nodup) (sched : List Sched) (k : Nat) :
+    committedWith k (groupRun env specs db ctxs arrival sched).txs =
+      if (groupRun env specs db ctxs arrival sched).result k = some .ok then 1 else 0 :=
+  (runGroup_inv (modelRunner env) specs db ctxs arrival hn sched).count k
+
+/-- when the schedule has run to its end (no call left in the batch, nobody left to try solo) every call has returned -/
+theorem batch_group_all_return (env : Env) (specs : Nat → Member) (db : Db) (ctxs : Nat → Ctx)
+    (arrival : List Nat) (hn : arrival.Nodup) (sched : List Sched)
+    (hc : (groupRun env specs db ctxs arrival sched).complete = true) (k : Nat) (hk : k ∈ arrival) :
+    ((groupRun env specs db ctxs arrival sched).result k).isSome = true := by
+  have hi := runGroup_inv (modelRunner env) specs db ctxs arrival hn sched
+  simp only [GState.complete, Bool.and_eq_true, List.isEmpty_iff] at hc
+  rcases hi.covered k hk with h1 | h1 | h1
+  · rw [hc.1] at h1; cases h1
+  · rw [hc.2] at h1; cases h1
+  · exact h1
+
+/-- every invocation logged for a transaction of the group is the closure of DbImpl.Batch for a body that hands
+    operation errors on -/
+theorem group_parts_from (env : Env) (specs : Nat → Member) (hw : ∀ k, Propagating (specs k).body)
+    (db : Db) (ctxs : Nat → Ctx) (arrival : List Nat) (hn : arrival.Nodup) (sched : List Sched)
+    (t : GTx) (ht : t ∈ (groupRun env specs db ctxs arrival sched).txs) (p : Part) (hp : p ∈ t.parts) :
+    PartFrom (modelRunner env) specs p ∧ Propagating p.body := by
+  have hf := ((runGroup_inv (modelRunner env) specs db ctxs arrival hn sched).wf t ht).parts p hp
+  exact ⟨hf, by rw [hf.2]; exact bodyAt_propagating _ (hw _) _⟩
+
+/-- a committed transaction of the group, segment by segment: every invocation was accepted and what it registered
+    on the OnCommit list is `commitList` of its accepted changes with the member's context -/
+theorem group_committed_parts (env : Env) (h : FromCode env) (specs : Nat → Member) (hw : ∀ k, Propagating (specs k).body)
+    (db : Db) (ctxs : Nat → Ctx) (arrival : List Nat) (hn : arrival.Nodup) (sched : List Sched)
+    (t : GTx) (ht : t ∈ (groupRun env specs db ctxs arrival sched).txs) (hc : t.committed = true) (p : Part) (hp : p ∈ t.parts) :
+    p.accepted env = true ∧ p.out.ctx = (p.spec env).ctx ∧
+    p.out.fired = commitList env (p.spec env).ctx (p.spec env).flows true := by
+  have hwf := (runGroup_inv (modelRunner env) specs db ctxs arrival hn sched).wf t ht
+  obtain ⟨hf, hpp⟩ := group_parts_from env specs hw db ctxs arrival hn sched t ht p hp
+  have hok := chainOk_all_ok _ _ _ (hwf.chain hc) p hp
+  obtain ⟨m1, m2, m3⟩ := part_model env h.expected specs p hf hpp
+  exact ⟨m2.mp hok, m1, (m3 hok).2.2⟩
+
+theorem deliveriesTo_flatMap (σ : StoreId) (reg slot : Nat) (ps : List Part) :
+    deliveriesTo σ reg slot (ps.flatMap (·.out.fired)) = ps.flatMap (fun p => deliveriesTo σ reg slot p.out.fired) := by
+  induction ps with
+  | nil => rfl
+  | cons p rest ih => simp [List.flatMap_cons, deliveriesTo_append, ih]
+
+theorem postsTo_flatMap (σ : StoreId) (reg : Nat) (ps : List Part) :
+    postsTo σ reg (ps.flatMap (·.out.fired)) = ps.flatMap (fun p => postsTo σ reg p.out.fired) := by
+  induction ps with
+  | nil => rfl
+  | cons p rest ih => simp [List.flatMap_cons, postsTo_append, ih]
+
+/-- **C08 for batch groups, exactly once**: for each COMMITTED transaction of the group (a round of the batch that
+    went through, or a solo re-run that succeeded) the listener registered at position `reg` on store σ receives,
+    through the `slot`-th change type it was registered with, exactly the accepted changes of that kind on σ of the
+    members of that transaction — member after member, each change once, in order, with its final / last state.
+    (`events_exactly_once` is the case of a single caller.) -/
+theorem batch_group_events_exactly_once (env : Env) (h : FromCode env) (specs : Nat → Member)
+    (hw : ∀ k, Propagating (specs k).body) (db : Db) (ctxs : Nat → Ctx) (arrival : List Nat) (hn : arrival.Nodup)
+    (sched : List Sched) (t : GTx) (ht : t ∈ (groupRun env specs db ctxs arrival sched).txs) (hc : t.committed = true)
+    (σ : StoreId) (reg slot : Nat) (style : Style) (types : List EvType) (ty : EvType)
+    (hreg : (env.regs σ)[reg]? = some (.listener style types)) (hslot : types[slot]? = some ty) :
+    deliveriesTo σ reg slot t.fired =
+      ((t.flows env).filter (fun fl => fl.store = σ ∧ fl.kind = ty.kind)).map (fun fl => (ty.async, fl.kind, payload fl)) := by
+  have hparts := group_committed_parts env h specs hw db ctxs arrival hn sched t ht hc
+  unfold GTx.fired GTx.flows
+  rw [if_pos hc, deliveriesTo_flatMap]
+  generalize t.parts = ps at hparts
+  induction ps with
+  | nil => rfl
+  | cons p rest ih =>
+    rw [List.flatMap_cons, List.flatMap_cons, List.filter_append, List.map_append,
+      ih (fun q hq => hparts q (List.mem_cons_of_mem _ hq)), (hparts p (List.mem_cons_self ..)).2.2,
+      deliveries_of_commitList env _ _ true σ reg slot style types ty hreg hslot]
+
+/-- the same for constraint registrations: ProcessPostCommit runs exactly once for every accepted change on σ of the
+    committed transaction's members -/
+theorem batch_group_constraint_posts_once (env : Env) (h : FromCode env) (specs : Nat → Member)
+    (hw : ∀ k, Propagating (specs k).body) (db : Db) (ctxs : Nat → Ctx) (arrival : List Nat) (hn : arrival.Nodup)
+    (sched : List Sched) (t : GTx) (ht : t ∈ (groupRun env specs db ctxs arrival sched).txs) (hc : t.committed = true)
+    (σ : StoreId) (reg : Nat) (typed : Bool) (vetoes : List (Kind × String))
+    (hreg : (env.regs σ)[reg]? = some (.constraint typed vetoes)) :
+    postsTo σ reg t.fired = (t.flows env).filter (fun fl => fl.store = σ) := by
+  have hparts := group_committed_parts env h specs hw db ctxs arrival hn sched t ht hc
+  unfold GTx.fired GTx.flows
+  rw [if_pos hc, postsTo_flatMap]
+  generalize t.parts = ps at hparts
+  induction ps with
+  | nil => rfl
+  | cons p rest ih =>
+    rw [List.flatMap_cons, List.flatMap_cons, List.filter_append,
+      ih (fun q hq => hparts q (List.mem_cons_of_mem _ hq)), (hparts p (List.mem_cons_self ..)).2.2,
+      posts_of_commitList env _ _ true σ reg typed vetoes hreg]
+
+/-- **commit actions and tx-complete listeners, per member closure**: in a committed transaction of the group every
+    member that took part contributes exactly one segment to the OnCommit list, and that segment runs one goroutine
+    with the commit actions of the member's context and every tx-complete listener exactly once (with that member's
+    context); the members of a transaction are pairwise different.  Together with `batch_group_committed_once`: for
+    every Db.Batch call that returns nil the commit actions of its context and the tx-complete listeners run exactly
+    once — in the one committed transaction it took part in. -/
+theorem batch_group_tx_complete_once (env : Env) (h : FromCode env) (specs : Nat → Member)
+    (hw : ∀ k, Propagating (specs k).body) (db : Db) (ctxs : Nat → Ctx) (arrival : List Nat) (hn : arrival.Nodup)
+    (sched : List Sched) (t : GTx) (ht : t ∈ (groupRun env specs db ctxs arrival sched).txs) (hc : t.committed = true) :
+    t.invoked.Nodup ∧
+    ∀ p ∈ t.parts, commitActionRuns p.out.fired = [p.out.ctx.commitActions] ∧
+      txCompleteRuns p.out.fired = List.range env.txListeners := by
+  refine ⟨((runGroup_inv (modelRunner env) specs db ctxs arrival hn sched).wf t ht).nodup, ?_⟩
+  intro p hp
+  obtain ⟨_, e1, e2⟩ := group_committed_parts env h specs hw db ctxs arrival hn sched t ht hc p hp
+  rw [e2, e1]
+  exact actions_of_commitList env _ _
+
+/-- the whole transaction: as many commit-action goroutines and as many rounds of tx-complete listener calls as it
+    has members (what the code does: registration per member closure) -/
+theorem batch_group_tx_complete_per_member (env : Env) (h : FromCode env) (specs : Nat → Member)
+    (hw : ∀ k, Propagating (specs k).body) (db : Db) (ctxs : Nat → Ctx) (arrival : List Nat) (hn : arrival.Nodup)
+    (sched : List Sched) (t : GTx) (ht : t ∈ (groupRun env specs db ctxs arrival sched).txs) (hc : t.committed = true) :
+    commitActionRuns t.fired = t.parts.map (·.out.ctx.commitActions) ∧
+    txCompleteRuns t.fired = t.parts.flatMap (fun _ => List.range env.txListeners) := by
+  have hparts := (batch_group_tx_complete_once env h specs hw db ctxs arrival hn sched t ht hc).2
+  unfold GTx.fired
+  rw [if_pos hc]
+  generalize t.parts = ps at hparts
+  induction ps with
+  | nil => exact ⟨rfl, rfl⟩
+  | cons p rest ih =>
+    obtain ⟨i1, i2⟩ := ih (fun q hq => hparts q (List.mem_cons_of_mem _ hq))
+    obtain ⟨a1, a2⟩ := hparts p (List.mem_cons_self ..)
+    simp only [List.flatMap_cons, commitActionRuns_append, txCompleteRuns_append, i1, i2, a1, a2, List.map_cons]
+    simp
+
+/-- **nothing is delivered for the rolled-back shared transaction or for a failed solo run** (bbolt discards the
+    OnCommit list of a transaction that does not commit; that nothing reaches a listener except through that list is
+    `delivery_is_expected`), the database is as before it — and a call that returned an error is part of no committed
+    transaction at all. -/
+theorem batch_group_rolled_back_no_events (env : Env) (specs : Nat → Member) (db : Db) (ctxs : Nat → Ctx)
+    (arrival : List Nat) (hn : arrival.Nodup) (sched : List Sched) :
+    (∀ t ∈ (groupRun env specs db ctxs arrival sched).txs, t.committed = false → t.fired = [] ∧ t.dbAfter = t.dbBefore) ∧
+    (∀ k e, (groupRun env specs db ctxs arrival sched).result k = some (.err e) →
+      committedWith k (groupRun env specs db ctxs arrival sched).txs = 0) := by
+  have hi := runGroup_inv (modelRunner env) specs db ctxs arrival hn sched
+  refine ⟨?_, ?_⟩
+  · intro t ht hc
+    exact ⟨by simp [GTx.fired, hc], (hi.wf t ht).rolled hc⟩
+  · intro k e hr
+    rw [hi.count k, hr]
+    simp
+
+/-- a committed transaction of the group as the spec reads it: every member's invocation accepted (no step rejected,
+    no pre-commit action failing), each on the database the member before it produced; and the transactions of the
+    group follow one another on the database -/
+theorem batch_group_committed_is_accepted (env : Env) (h : FromCode env) (specs : Nat → Member)
+    (hw : ∀ k, Propagating (specs k).body) (db : Db) (ctxs : Nat → Ctx) (arrival : List Nat) (hn : arrival.Nodup)
+    (sched : List Sched) :
+    (∀ t ∈ (groupRun env specs db ctxs arrival sched).txs, t.committed = true → specChain env t.dbBefore t.parts t.dbAfter) ∧
+    Linked db (groupRun env specs db ctxs arrival sched).txs (groupRun env specs db ctxs arrival sched).db := by
+  have hi := runGroup_inv (modelRunner env) specs db ctxs arrival hn sched
+  refine ⟨?_, hi.linked⟩
+  intro t ht hc
+  exact chainOk_specChain env h.expected specs hw _ _ _ (hi.wf t ht).parts ((hi.wf t ht).chain hc)
+
+/-- **a group of one is Db.Batch with a single caller** (`dbBatch`, about which the theorems above this section
+    speak): one round, then — if it failed — the solo re-run. -/
+theorem batch_group_single_is_batch (env : Env) (db : Db) (ctx : Ctx) (body : List Step) :
+    let s := groupRun env (fun _ => { body := body }) db (fun _ => ctx) [0] [.round, .solo 0]
+    s.result 0 = some (dbBatch env db ctx body).res ∧ s.db = (dbBatch env db ctx body).db ∧
+    s.ctxOf 0 = (dbBatch env db ctx body).ctx ∧ s.txs.flatMap GTx.fired = (dbBatch env db ctx body).fired ∧
+    s.invs 0 = (dbBatch env db ctx body).runs := by
+  simp only [groupRun, runGroup, List.foldl, gInit, gStep, List.isEmpty_cons, Bool.false_eq_true, if_false]
+  unfold roundGo
+  simp only [Nat.zero_add, Member.bodyAt, Nat.le_refl, if_true, ne_eq, not_true_eq_false, false_and, if_false]
+  cases hr : (attempt env true db ctx body).res with
+  | ok =>
+    simp [modelRunner, envAt, Invocation.ok, Res.isOk, hr, roundGo, dbBatch, commit, upd, GTx.fired]
+  | err e =>
+    simp only [modelRunner, envAt, Invocation.ok, Res.isOk, hr, Nat.le_refl, if_true, Bool.false_eq_true, if_false]
+    cases hr2 : (attempt env.later true db (attempt env true db ctx body).st.ctx (laterBody body)).res with
+    | ok =>
+      simp [swapRemove, upd, dbBatch, hr, hr2, commit, GTx.fired]
+    | err e2 =>
+      simp [swapRemove, upd, dbBatch, hr, hr2, rollback, GTx.fired]
+
+/-! ### non-vacuity / witnesses (the scenario of a sibling failing after an earlier member already ran) -/
+
+/-- one tx-complete listener, one create listener on the parent store -/
+def grpEnv : Env := { regsP := [.listener .untyped [⟨.created, false⟩]], regsC := [], txListeners := 1, t := Generated.crudReturns }
+
+/-- member 0 registers a commit action and creates p1; member 1 creates p2, registers a commit action and fails on
+    its first invocation after the create -/
+def grpSpecs : Nat → Member := fun k =>
+  if k = 0 then { body := [.addCommit 1, .op (.create .P "p1" ⟨"n1", [], none, [], []⟩ "") .none false] }
+  else { body := [.op (.create .P "p2" ⟨"n2", [], none, [], []⟩ "") .none false, .addCommit 2],
+         faultInv := 1, faultPos := 1, faultTag := 911 }
+
+example : ∀ k, Propagating (grpSpecs k).body := by
+  intro k
+  unfold grpSpecs Propagating
+  split <;> decide
+
+-- the shared transaction (members 0, 1) is rolled back; member 0 is re-run in a round of its own, which commits;
+-- member 1 re-runs solo and commits: both calls return nil, each was committed in exactly one transaction, nothing
+-- was delivered for the rolled-back shared transaction, and EACH committed transaction runs the tx-complete listener
+-- once, one commit-action goroutine and announces exactly its own create
+example :
+    (groupRun grpEnv grpSpecs [] (fun _ => Ctx.empty) [0, 1] [.round, .round, .solo 1]).result 0 = some .ok ∧
+    (groupRun grpEnv grpSpecs [] (fun _ => Ctx.empty) [0, 1] [.round, .round, .solo 1]).result 1 = some .ok ∧
+    (groupRun grpEnv grpSpecs [] (fun _ => Ctx.empty) [0, 1] [.round, .round, .solo 1]).complete = true ∧
+    (groupRun grpEnv grpSpecs [] (fun _ => Ctx.empty) [0, 1] [.round, .round, .solo 1]).txs.map (fun t => (t.invoked, t.committed))
+      = [([0, 1], false), ([0], true), ([1], true)] ∧
+    (groupRun grpEnv grpSpecs [] (fun _ => Ctx.empty) [0, 1] [.round, .round, .solo 1]).txs.map (fun t => txCompleteRuns t.fired)
+      = [[], [0], [0]] ∧
+    (groupRun grpEnv grpSpecs [] (fun _ => Ctx.empty) [0, 1] [.round, .round, .solo 1]).txs.map (fun t => commitActionRuns t.fired)
+      = [[], [[1, 1]], [[2]]] ∧
+    (groupRun grpEnv grpSpecs [] (fun _ => Ctx.empty) [0, 1] [.round, .round, .solo 1]).txs.map (fun t => deliveriesTo .P 0 0 t.fired)
+      = [[], [(false, .created, some (.parent "p1" ⟨"n1", [], none, [], []⟩))],
+             [(false, .created, some (.parent "p2" ⟨"n2", [], none, [], []⟩))]] := by
+  decide +kernel
+
+-- the other order of the same group (the solo re-run gets the writer lock before the next round): same verdicts
+example :
+    (groupRun grpEnv grpSpecs [] (fun _ => Ctx.empty) [0, 1] [.round, .solo 1, .round]).txs.map (fun t => (t.invoked, t.committed, txCompleteRuns t.fired))
+      = [([0, 1], false, []), ([1], true, [0]), ([0], true, [0])] := by
+  decide +kernel
+
+-- nobody fails: ONE committed transaction with two members — the tx-complete listener runs once per member closure
+-- (twice in that bbolt transaction, once for each call's context), two commit-action goroutines
+example :
+    (groupRun grpEnv (fun k => { (grpSpecs k) with faultInv := 0 }) [] (fun _ => Ctx.empty) [0, 1] [.round]).txs.map
+        (fun t => (t.invoked, t.committed, txCompleteRuns t.fired, commitActionRuns t.fired))
+      = [([0, 1], true, [0, 0], [[1], [2]])] := by
+  decide +kernel
+
+-- a member that always fails (its solo re-run fails too): its call returns the error, no committed transaction
+-- contains it, nothing is delivered for it; the other member commits alone
+example :
+    (groupRun grpEnv (fun k => if k = 0 then grpSpecs 0 else { body := [.addCommit 2, .fail 7] }) [] (fun _ => Ctx.empty) [0, 1]
+        [.round, .solo 1, .round]).result 1 = some (.err (.caller 7)) ∧
+    (groupRun grpEnv (fun k => if k = 0 then grpSpecs 0 else { body := [.addCommit 2, .fail 7] }) [] (fun _ => Ctx.empty) [0, 1]
+        [.round, .solo 1, .round]).txs.map (fun t => (t.invoked, t.committed, t.fired.length))
+      = [([0, 1], false, 0), ([1], false, 0), ([0], true, 3)] := by
   decide +kernel
 
 end StorageModel.Properties.C08
